@@ -12,7 +12,6 @@ def setup(c):
 
 PROP = dict(
     id="C13",
-    disabled=True,
     engines=['c13'],
     go_tags=['c11'],
     gen_files={},
